@@ -50,29 +50,29 @@ mod sp_dual__perm2;
 mod longest_capped__ser;
 mod set_reach__to;
 mod set_reach__redecl;
-mod cp__par;
-mod lex_lat__par;
-mod lat_multi_improve__ser;
-mod count_paths__ser;
-mod count_paths__src0;
-mod neg_basic__par;
-mod neg_basic__src1;
-mod neg_basic__ren;
-mod agg_depth__par;
-mod agg_lattice__topar;
-mod neg_rec_after__exppar;
-mod agg_empty__topar;
-mod agg_const_args__pari;
-mod disj__run;
-mod disj__runpar;
-mod disj_nested__ser;
-mod pat_args__exp;
-mod multi_head_disj__par;
-mod neg_in_disj__exppar;
-mod mac_basic__gen;
-mod mac_basic__exp;
-mod mac_nested__par;
-mod mac_gensym_disj__exppar;
+mod bset__topar;
+mod opt_lat__pari;
+mod lat_two_keys__par;
+mod lat_val_bound__par;
+mod count_paths__mrt;
+mod count_paths__srcpar;
+mod neg_basic__gen;
+mod neg_basic__perm1;
+mod agg_minmaxsum__pari;
+mod agg_lattice__pari;
+mod neg_rec_after__pari;
+mod agg_empty__pari;
+mod agg_const_args__ser;
+mod disj__to;
+mod disj__redecl;
+mod disj__exp;
+mod pat_args__par;
+mod rep_expr__exppar;
+mod neg_in_disj__pari;
+mod mac_basic__run;
+mod mac_basic__runpar;
+mod mac_capture__exppar;
+mod mac_gensym_disj__pari;
 
 fn lookup(name: &str) -> fn() -> Box<dyn Driven> {
    match name {
@@ -118,29 +118,29 @@ fn lookup(name: &str) -> fn() -> Box<dyn Driven> {
       "longest_capped__ser" => longest_capped__ser::make,
       "set_reach__to" => set_reach__to::make,
       "set_reach__redecl" => set_reach__redecl::make,
-      "cp__par" => cp__par::make,
-      "lex_lat__par" => lex_lat__par::make,
-      "lat_multi_improve__ser" => lat_multi_improve__ser::make,
-      "count_paths__ser" => count_paths__ser::make,
-      "count_paths__src0" => count_paths__src0::make,
-      "neg_basic__par" => neg_basic__par::make,
-      "neg_basic__src1" => neg_basic__src1::make,
-      "neg_basic__ren" => neg_basic__ren::make,
-      "agg_depth__par" => agg_depth__par::make,
-      "agg_lattice__topar" => agg_lattice__topar::make,
-      "neg_rec_after__exppar" => neg_rec_after__exppar::make,
-      "agg_empty__topar" => agg_empty__topar::make,
-      "agg_const_args__pari" => agg_const_args__pari::make,
-      "disj__run" => disj__run::make,
-      "disj__runpar" => disj__runpar::make,
-      "disj_nested__ser" => disj_nested__ser::make,
-      "pat_args__exp" => pat_args__exp::make,
-      "multi_head_disj__par" => multi_head_disj__par::make,
-      "neg_in_disj__exppar" => neg_in_disj__exppar::make,
-      "mac_basic__gen" => mac_basic__gen::make,
-      "mac_basic__exp" => mac_basic__exp::make,
-      "mac_nested__par" => mac_nested__par::make,
-      "mac_gensym_disj__exppar" => mac_gensym_disj__exppar::make,
+      "bset__topar" => bset__topar::make,
+      "opt_lat__pari" => opt_lat__pari::make,
+      "lat_two_keys__par" => lat_two_keys__par::make,
+      "lat_val_bound__par" => lat_val_bound__par::make,
+      "count_paths__mrt" => count_paths__mrt::make,
+      "count_paths__srcpar" => count_paths__srcpar::make,
+      "neg_basic__gen" => neg_basic__gen::make,
+      "neg_basic__perm1" => neg_basic__perm1::make,
+      "agg_minmaxsum__pari" => agg_minmaxsum__pari::make,
+      "agg_lattice__pari" => agg_lattice__pari::make,
+      "neg_rec_after__pari" => neg_rec_after__pari::make,
+      "agg_empty__pari" => agg_empty__pari::make,
+      "agg_const_args__ser" => agg_const_args__ser::make,
+      "disj__to" => disj__to::make,
+      "disj__redecl" => disj__redecl::make,
+      "disj__exp" => disj__exp::make,
+      "pat_args__par" => pat_args__par::make,
+      "rep_expr__exppar" => rep_expr__exppar::make,
+      "neg_in_disj__pari" => neg_in_disj__pari::make,
+      "mac_basic__run" => mac_basic__run::make,
+      "mac_basic__runpar" => mac_basic__runpar::make,
+      "mac_capture__exppar" => mac_capture__exppar::make,
+      "mac_gensym_disj__pari" => mac_gensym_disj__pari::make,
       _ => panic!("no such program variant in this shard: {}", name),
    }
 }
